@@ -15,6 +15,7 @@ from fgutils.parse import Parser
 from fgutils.proxy import replace_node, ProxyGraph
 
 ID = "C13"
+REPEAT_PROBE = True   # engine: repeat 1 call in 5 after editing its first result in place (purity / no shared state)
 PROPS = "Props/C13.v"
 MODEL_FILES = ["Model/Proxy.v", "Model/NXMultiOps.v", "Spec/ProxyCheck.v"]
 IMPORTS = "From FGV Require Import Base.NXMulti Model.NXMultiOps Model.Proxy Spec.ProxyCheck."
@@ -608,3 +609,9 @@ def py_invariants(c, out):
     list and the default anchor list are unchanged, the Parser object still parses, and in a history no
     earlier result is modified by a later call."""
     return list(out[-1])
+
+
+def repeat_ok(c):
+    # the operation-sequence cases carry their operand graphs inside the case itself (returned as part of the
+    # outcome), so the engine's "edit the first result in place, then repeat" probe would edit the inputs
+    return c.get("kind") != "mtie"
